@@ -35,6 +35,20 @@ def wpVerdict (impl : String) (s : WP) : String :=
      | _, _ => [])
   if items.isEmpty then "ok" else "; ".intercalate items
 
+/-- C23 (size clause) on the real counters: a packet larger than the client's Maximum Packet Size must
+    not be reported sent / written -/
+def wpSizeVerdict (impl : String) (pre : WP) (size : Nat) : List String :=
+  let f (k : String) : Option Nat := (kvGet (impl.splitOn " ") k).bind (·.toNat?)
+  match f "reported" with
+  | some r =>
+    if pre.maxSize > 0 && size > pre.maxSize && r > pre.reported then
+      [s!"FAIL[C23|-] a packet of {size} bytes was written to a client whose Maximum Packet Size is {pre.maxSize}"]
+    else []
+  | none => []
+
+def joinVerdicts (a : String) (extra : List String) : String :=
+  if extra.isEmpty then a else if a == "ok" then "; ".intercalate extra else a ++ "; " ++ "; ".intercalate extra
+
 def writebufOp (st : WState) (impl : String) : List String → Option (WState × String × String × String)
   | "wp.new" :: kv =>
     let s : WP := { wbuf := kvNatD kv "wbuf" 2048, maxSize := kvNatD kv "mps" 0 }
@@ -45,12 +59,13 @@ def writebufOp (st : WState) (impl : String) : List String → Option (WState ×
   | ["wp.loop"] =>
     if st.wp.inHand.isNone then some (st, renderWP "idle" st.wp, "ok", "-") else
     let s := autoDequeue (step wpFlushOnRefusal st.wp .loopWrite)
-    some ({ st with wp := s }, renderWP "ok" s, wpVerdict impl s, "-")
+    some ({ st with wp := s }, renderWP "ok" s, joinVerdicts (wpVerdict impl s) (wpSizeVerdict impl st.wp (st.wp.inHand.getD 0)), "-")
   | ["wp.direct", size] => do
     let size ← size.toNat?
     let r := writePacket st.wp size
     let s := r.1
-    some ({ st with wp := s }, renderWP (if r.2 == .sent then "sent" else "toolarge") s, wpVerdict impl s, "-")
+    some ({ st with wp := s }, renderWP (if r.2 == .sent then "sent" else "toolarge") s,
+          joinVerdicts (wpVerdict impl s) (wpSizeVerdict impl st.wp size), "-")
   | _ => none
 
 end Mochi.Driver
